@@ -27,10 +27,12 @@ impl TryFrom<f64> for HFloat {
     type Error = ();
 
     fn try_from(value: f64) -> Result<Self, Self::Error> {
+        // Only values a half float holds exactly: an immediate must not change the number the
+        // program wrote (an absolute tolerance turned 0.001 into 0.0010004 and 0.000001 into
+        // 0.00000101 on the VM).
         let hv = f16::from_f64(value);
-        let error = (hv.to_f64() - value).abs();
-        if error < ALLOWED_ERROR {
-            Ok(Self(f16::from_f64(value)))
+        if hv.to_f64() == value {
+            Ok(Self(hv))
         } else {
             Err(())
         }
